@@ -531,7 +531,16 @@ func (db *RockDB) HClear(ts int64, hkey []byte) (int64, error) {
 		defer tableIndexes.Unlock()
 	}
 
-	hlen, err := db.HLen(hkey)
+	// the expiration must be decided by the time of the write, not by the local
+	// clock, otherwise replicas may apply the same log entry differently
+	oldh, expired, err := db.hHeaderMeta(ts, hkey, false)
+	if err != nil {
+		return 0, err
+	}
+	if expired {
+		return 0, nil
+	}
+	hlen, err := Int64(oldh.UserData, err)
 	if err != nil {
 		return 0, err
 	}
